@@ -18,7 +18,7 @@ import ast
 
 from ..core import algebra as A
 from ..core.absint import Abs, Obj, Tok, Raised
-from ..core.symarr import SymArr
+from ..core.symarr import SymArr, np_summaries
 from ..core.source import AnalysisError, norm
 from ..rules import model as M
 from ..rules import layout as L
@@ -194,11 +194,11 @@ class BWorld:
             "Model.get_TransitionJacobian": setter("_transitionJacobian", self.F),
             "Model._iterStateList": lambda me_: list(self.xs),
             "Model._iterParamList": lambda me_: list(self.ps),
-            "sympy.zeros": lambda r, c=None: SymMat((r, c if c is not None else r), [0] * (r * (c if c is not None else r))),
             "diff": lambda e, v, n=1: D(e, v), "sympy.diff": lambda e, v, n=1: D(e, v),
             "simplifyEquation": lambda e: (e, False),
             "copy.deepcopy": lambda x: x.copy() if hasattr(x, "copy") else x,
         }
+        summ.update(sympy_ctors(SymMat))
         getters = {"num_state": lambda m: self.nS, "num_param": lambda m: self.nP, "num_events": lambda m: self.nE}
         lam = SymArr((self.nS, self.nE), [(i + j) % 2 for i in range(self.nS) for j in range(self.nE)])
         summ["Model.get_ReactantMatrix"] = setter("_lambdaMat", lam)
@@ -236,6 +236,71 @@ class CMat(SymMat):
     def __add__(self, o):
         r = SymArr.__add__(self, o)
         return CMat(r.shape, r.flat)
+
+
+_np = np_summaries()
+
+
+def sympy_ctors(Mat):
+    """the constructors of sympy matrices, for the matrix class of a world: zeros, Matrix(rows, cols, flat) / Matrix(list of rows) /
+    Matrix(flat list -> column), eye, vstack, hstack"""
+    def zeros(r, c=None):
+        if isinstance(r, (tuple, list)):
+            r, c = r
+        c = r if c is None else c
+        return Mat((r, c), [0] * (r * c))
+
+    def matrix(*a):
+        if len(a) == 3:
+            r, c, flat = a
+            if isinstance(flat, tuple) and flat and isinstance(flat[0], str):
+                raise A.Undecided("sympy.Matrix(rows, cols, function)")
+            flat = list(flat.flat) if isinstance(flat, SymArr) else list(flat)
+            if len(flat) != r * c:
+                raise ValueError("List length should be equal to rows*columns")
+            return Mat((r, c), flat)
+        if len(a) != 1:
+            raise A.Undecided("sympy.Matrix with %d arguments" % len(a))
+        v = a[0]
+        if isinstance(v, SymArr):
+            return Mat(v.shape if v.ndim == 2 else (v.shape[0], 1), list(v.flat))
+        v = list(v)
+        if v and isinstance(v[0], SymArr):
+            # a list of row matrices / column vectors stacked on top of one another
+            width = v[0].shape[1] if v[0].ndim == 2 else 1
+            return Mat((sum(m.shape[0] for m in v), width), [x for m in v for x in m.flat])
+        if v and isinstance(v[0], (list, tuple)):
+            if len({len(r) for r in v}) != 1:
+                raise ValueError("mismatched dimensions")
+            return Mat((len(v), len(v[0])), [x for row in v for x in row])
+        return Mat((len(v), 1), v)
+
+    def vstack(*ms):
+        ms = [m for m in ms]
+        if not ms:
+            return Mat((0, 0), [])
+        if len({m.shape[1] for m in ms}) != 1:
+            raise ValueError("vstack of matrices of different widths")
+        return Mat((sum(m.shape[0] for m in ms), ms[0].shape[1]), [x for m in ms for x in m.flat])
+
+    def hstack(*ms):
+        if not ms:
+            return Mat((0, 0), [])
+        if len({m.shape[0] for m in ms}) != 1:
+            raise ValueError("hstack of matrices of different heights")
+        rows = []
+        for i in range(ms[0].shape[0]):
+            for m in ms:
+                rows += list(m.flat[i * m.shape[1]:(i + 1) * m.shape[1]])
+        return Mat((ms[0].shape[0], sum(m.shape[1] for m in ms)), rows)
+
+    def eye(n, *a):
+        return Mat((n, n), [1 if i == j else 0 for i in range(n) for j in range(n)])
+    return {"sympy.zeros": zeros, "sympy.Matrix.zeros": zeros, "sympy.Matrix": matrix, "sympy.ImmutableMatrix": matrix, "sympy.MutableDenseMatrix": matrix,
+            "sympy.Matrix.vstack": vstack, "sympy.Matrix.hstack": hstack, "sympy.eye": eye, "sympy.Matrix.eye": eye,
+            "sympy.S": lambda v: A.lift(v), "sympy.Integer": lambda v: A.Rat.const(int(v)), "sympy.sympify": lambda v: A.lift(v),
+            # index helpers of numpy the builders may use to walk a matrix
+            "np.ndindex": _np["np.ndindex"], "np.arange": lambda *a: list(range(*a))}
 
 
 def check_concrete(repo, res):
@@ -284,10 +349,10 @@ def check_concrete(repo, res):
         summ = {
             "Model.get_ode_eqn": setter("_ode", fm), "Model.get_grad_eqn": setter("_Grad", CMat(want["get_grad_eqn"].shape, list(want["get_grad_eqn"].flat))),
             "Model._iterStateList": lambda me_: list(xs), "Model._iterParamList": lambda me_: list(ps),
-            "sympy.zeros": lambda r, c=None: CMat((r, c if c is not None else r), [0] * (r * (c if c is not None else r))),
             "diff": diff_, "sympy.diff": diff_, "simplifyEquation": lambda e: (e, False),
             "copy.deepcopy": lambda x: x.copy() if hasattr(x, "copy") else x,
         }
+        summ.update(sympy_ctors(CMat))
         getters = {"num_state": lambda m: nS, "num_param": lambda m: nP}
         tag = name + "(written-out right-hand side)"
         try:
